@@ -207,6 +207,11 @@ structure Sample (K : Type) where
   duration : K       -- hours
   energy : K         -- kWh
 
+/-- `if max_len is not None and duration > max_len: duration = max_len` (HOURS, DESIGN §8) -/
+def sampleDur (d : K) : Option K → K
+  | some L => if L < d then L else d
+  | none => d
+
 /-- One row. `none` = "Invalid session." (skipped).  NOTE (DESIGN §8): `max_len` caps the
     duration in HOURS, and the capacity fit is handed the duration in hours. -/
 def convertSample (idx : Nat) (s : Sample K) (period V maxPower : K) (maxLen : Option K)
@@ -216,9 +221,7 @@ def convertSample (idx : Nat) (s : Sample K) (period V maxPower : K) (maxLen : O
     let pph := (60 : Nat) / period
     if s.arrival < 0 ∨ s.duration ≤ 0 ∨ s.energy ≤ 0 then .ok none
     else
-      let duration := match maxLen with
-        | some L => if L < s.duration then L else s.duration
-        | none => s.duration
+      let duration := sampleDur s.duration maxLen
       -- `np.minimum(max_feasible, energy)`: the second operand unless the first is smaller
       let energy := if ff then pyMin s.energy (maxPower * duration) else s.energy
       let departure : Int := HasTrunc.trunc ((s.arrival + duration) * pph)
